@@ -164,10 +164,26 @@ const footer = "Definition M := Eval vm_compute in mismatches cases.\nPrint M.\n
 
 // casesFile collects `Definition cN : <ty> := ...` and the list
 type casesFile struct {
-	f    *hx.CoqFile
-	ty   string
-	n    int
-	name string
+	f     *hx.CoqFile
+	ty    string
+	n     int
+	name  string
+	trees map[string]string // printed tree -> name of its definition in this file (hops share their trees)
+}
+
+// tree names a JSON tree: the input of one hop is the output of the previous one, the direct and the stepwise
+// migration start from the same definition; each distinct tree is written once per file
+func (c *casesFile) tree(printed string) string {
+	if c.trees == nil {
+		c.trees = map[string]string{}
+	}
+	if n, ok := c.trees[printed]; ok {
+		return n
+	}
+	n := fmt.Sprintf("j%d", len(c.trees))
+	c.trees[printed] = n
+	c.f.Add(fmt.Sprintf("Definition %s : json := %s.", n, printed))
+	return n
 }
 
 func newCasesFile(name, ty string) *casesFile {
